@@ -364,6 +364,11 @@ impl AStats {
 const PARSER_NAMES: [&str; 2] = ["expr-parser(parse_expr)", "stmt-parser(parse: SELECT..WHERE e)"];
 
 fn check_tree(tb: &Table, t: &T, st: &mut AStats, family: &str) {
+    check_tree_opt(tb, t, st, family, true)
+}
+/// `full_too = false`: only the minimal printing (the fully parenthesised form of a long flat chain
+/// nests deeper than the parser's documented depth limit and is legitimately refused)
+fn check_tree_opt(tb: &Table, t: &T, st: &mut AStats, family: &str, full_too: bool) {
     st.trees += 1;
     let (mut min, mut full, mut want) = (String::new(), String::new(), String::new());
     print_min(tb, t, &mut 0, &mut min);
@@ -377,6 +382,9 @@ fn check_tree(tb: &Table, t: &T, st: &mut AStats, family: &str) {
     }
     for parser in 0..2 {
         for (pname, text) in [("minimal", &min), ("full", &full)] {
+            if pname == "full" && !full_too {
+                continue;
+            }
             st.parses += 2;
             let got = parse_via(parser, text, &mut st.nondet);
             let bad = match &got {
@@ -564,6 +572,36 @@ fn part_a(rep: &mut Report, thorough: bool, selftest: bool) -> (u64, u64, u64) {
             st
         })
         .reduce(AStats::default, AStats::merge);
+    // wide flat chains: N operands joined by one binary operator, every operand itself one application of
+    // another operator (binary, prefix or postfix): nesting depth 2 whatever N is
+    let mut wide: Vec<(Op, Op, usize)> = vec![];
+    for &p in ops.iter().filter(|o| matches!(o, Op::Bin(_))) {
+        for &q in &ops {
+            for n in [4usize, 50] {
+                wide.push((p, q, n));
+            }
+        }
+    }
+    let sw = wide
+        .par_chunks(64)
+        .map(|c| {
+            let mut st = AStats::default();
+            for (p, q, n) in c {
+                let operand = || match q {
+                    Op::Bin(_) => wrap(*q, T::Leaf, Some(T::Leaf)),
+                    _ => wrap(*q, T::Leaf, None),
+                };
+                let mut t = operand();
+                for _ in 1..*n {
+                    t = wrap(*p, t, Some(operand()));
+                }
+                check_tree_opt(tb, &t, &mut st, "wide flat chain", *n <= 4);
+            }
+            st
+        })
+        .reduce(AStats::default, AStats::merge);
+    rep.part("A_wide_chains", json!({"operands": [4, 50], "outer_binary_operators_x_inner_operators": wide.len() / 2, "trees": sw.trees, "parses": sw.parses, "violating": sw.viol_total}));
+    total = total.merge(sw);
     rep.part("A_combs", json!({"max_depth": 8, "operator_pairs": ops.len()*ops.len(), "words": if thorough {"all words over {p,q}"} else {"alternating pqpq.."}, "trees": s.trees, "parses": s.parses, "violating": s.viol_total}));
     total = total.merge(s);
 
